@@ -20,7 +20,8 @@ RULE = ('source streams of few chunks (zeros, random bytes, clean images of the 
         'the expected one included), a bounded family of allowed_formats, file-like (read) and iterator (next) '
         'sources; plus genuine parser errors raised by crafted content (VHDX bad region signature / region count / '
         'metadata signature on >= 256 KiB streams, VMDK bad version and descriptor location) with and without '
-        'injected faults. Compared: length and adler32 of the bytes returned, number of chunks returned, how the '
+        'injected faults; and clean images of every format read with zero-length reads in mid-stream and further '
+        'reads after EOF, with expected_format = that format / raw / none. Compared: length and adler32 of the bytes returned, number of chunks returned, how the '
         'stream ended, per-inspector feed log and errored marks (for the chunk on which the stream was cut off only '
         'the order-independent part). A case is non-trivial when at least one fault fired or the stream was cut '
         'off; distinct by (content digest, chunk sizes, faults, expected_format, allowed_formats, source kind)')
@@ -84,6 +85,14 @@ def plan_cases(ctx):
             names.append(e)
         fl = sorted({(rng.choice(names), rng.randrange(max(1, nch))) for _ in range(rng.randint(2, 5))})
         out.append((label, data, sizes, rng.choice([None, None, None] + G.C06_ALLOWED[1:]), e, fl, rng.random() < 0.5))
+    # content that matches the expected format, zero-length reads in mid-stream, reads after EOF
+    for f, label, data, sizes in G.c06_matching(rng, quick):
+        others = [x for x in G.ALLF if x != f]
+        for e in (f, 'raw', None):
+            out.append((label, data, sizes, None, e, [], False))
+            out.append((label, data, sizes, rng.choice([None, [f, 'raw']]), e,
+                        [(rng.choice(others), rng.randrange(len(sizes)))], False))
+        out.append((label, data, sizes, None, f, [], True))
     # genuine parser errors on long streams
     for label, data, sizes in G.c06_big_streams(rng, quick):
         nch = len(sizes)
@@ -95,9 +104,12 @@ def plan_cases(ctx):
     return out
 
 
-def case_of(label, data, sizes, allowed, expected, faults, iterator):
-    return {'label': label, 'content': insp_impl.content_field(data), 'sizes': list(sizes), 'allowed': allowed,
-            'expected': expected, 'faults': [list(f) for f in faults], 'iterator': bool(iterator)}
+def case_of(label, data, sizes, allowed, expected, faults, iterator, must_complete=False):
+    c = {'label': label, 'content': insp_impl.content_field(data), 'sizes': list(sizes), 'allowed': allowed,
+         'expected': expected, 'faults': [list(f) for f in faults], 'iterator': bool(iterator)}
+    if must_complete:
+        c['must_complete'] = True
+    return c
 
 
 def correspondence(ctx):
@@ -128,11 +140,20 @@ def correspondence(ctx):
 # --------------------------------------------------------------------------
 # failing-input search: the property on the implementation only
 
-def oracle(allowed, expected, data, sizes, faults, iterator):
+def oracle(allowed, expected, data, sizes, faults, iterator, must_complete=False):
+    """`must_complete`: the content matches the expected format and no fault is planned for that inspector,
+    so the reader must get every byte and no exception"""
     F = G.fi()
     t = G.pipe_trace(allowed, expected, data, sizes, faults, iterator)
     chunks, out, (end, exc), ev = t['chunks'], t['out'], t['end'], t['events']
     m = len(out)
+    if t['fed_after_finish']:
+        name, k = t['fed_after_finish'][0]
+        return ('the wrapper finished inspector %s while the stream was still being read and fed it chunk %d '
+                'afterwards%s' % (name, k, '' if end == 'done' else ' (%s reached the reader)' % type(exc).__name__))
+    if must_complete and (end != 'done' or b''.join(out) != data[:sum(sizes)]):
+        return ('content matches expected_format=%s and that inspector has no fault, but the stream ended with %s '
+                'after %d of %d reads' % (expected, type(exc).__name__ if exc is not None else end, m, len(sizes)))
     # transparent pipe: the reader gets exactly the source's chunks, in order
     for k, (a, b) in enumerate(zip(out, chunks)):
         if a != b:
@@ -208,10 +229,10 @@ def search(ctx, seeds, full=False):
     fails = []
     kinds = {}
 
-    def run(label, data, sizes, al, e, fl, it):
+    def run(label, data, sizes, al, e, fl, it, mc=False):
         ctx.evaluations += 1
         fl = [tuple(f) for f in fl]
-        why = oracle(al, e, data, sizes, fl, it)
+        why = oracle(al, e, data, sizes, fl, it, mc)
         if not why:
             return
         kind = ' '.join(w for w in why.split(' ') if not any(ch.isdigit() for ch in w))[:70]
@@ -220,22 +241,31 @@ def search(ctx, seeds, full=False):
             return
         # shrink: fewer faults, then no allowed_formats restriction
         def still(sub):
-            return oracle(al, e, data, sizes, sub, it) is not None
+            return oracle(al, e, data, sizes, sub, it, mc) is not None
         small = fl
         if len(fl) > 1:
             small = common.shrink_list(fl, still, max_steps=40)
-        if fl and oracle(al, e, data, sizes, [], it):
+        if fl and oracle(al, e, data, sizes, [], it, mc):
             small = []
-        fails.append(Failure(case_of(label, data, sizes, al, e, small, it),
-                             {'kind': kind, 'what': '%s: %s' % (label, oracle(al, e, data, sizes, small, it))}))
+        fails.append(Failure(case_of(label, data, sizes, al, e, small, it, mc),
+                             {'kind': kind, 'what': '%s: %s' % (label, oracle(al, e, data, sizes, small, it, mc))}))
 
     for s in seeds[:300]:
         run(s.get('label', 'seed'), G.decode_content(s['content']), s['sizes'], s.get('allowed'), s.get('expected'),
-            s.get('faults', []), s.get('iterator', False))
+            s.get('faults', []), s.get('iterator', False), s.get('must_complete', False))
         run(s.get('label', 'seed'), G.decode_content(s['content']), s['sizes'], s.get('allowed'), s.get('expected'),
-            s.get('faults', []), not s.get('iterator', False))
+            s.get('faults', []), not s.get('iterator', False), s.get('must_complete', False))
     streams = G.c06_streams(rng, ctx.quick)
     exps = [None] + G.ALLF
+    # matching content, zero-length reads in mid-stream and reads after EOF: every byte, no exception
+    for f, label, data, sizes in G.c06_matching(rng, ctx.quick):
+        others = [x for x in G.ALLF if x not in (f, 'raw')]
+        for e in (f, 'raw', None):
+            for fl in ([], [(rng.choice(others), rng.randrange(len(sizes)))]):
+                for it in (False, True):
+                    run(label, data, sizes, None, e, fl, it, True)
+        if len(fails) >= 6:
+            return fails[:6]
     # every single fault x expected on a few streams, both source kinds
     for label, data, sizes in (streams[:5] if ctx.quick and not full else streams):
         for name in G.ALLF:
@@ -280,7 +310,7 @@ def replay(ctx, payload):
     model = ctx.driver.ask(G.fault_req(al, e, data, sizes, fl))
     print('implementation:', G.canon_fault(impl, e).replace('\t', ' | '))
     print('model         :', G.canon_fault(model, e).replace('\t', ' | '))
-    why = oracle(al, e, data, sizes, fl, it)
+    why = oracle(al, e, data, sizes, fl, it, case.get('must_complete', False))
     print('property oracle on the implementation:', why)
     return 1 if why else 0
 
